@@ -321,6 +321,13 @@ func c10QueriesRaw(thorough bool) []string {
 	qs = append(qs, `sum by (l) (a) + on (l) group_left clamp_min(b, 0)`, `clamp_min(b, 0) + on (l) group_right sum by (l) (a)`, `clamp_min(a, 2)`,
 		`sum by (l) (a) / on (l) group_left clamp_max(b, 100)`, `max(a) + scalar(clamp_min(b{l="0"}, 0))`, `clamp(a, 0, 100) + on (l, m) sum by (l, m) (a)`,
 		`sum by (l) (a) + on (l) group_left (b * 2)`, `(b * 2) + on (l) group_right sum by (l) (a)`)
+	// expressions that look at several series at once or at none (a scalar of a vector, a
+	// parameter computed from series, functions without a vector argument): evaluated by
+	// each engine over its own partition they differ from the central result
+	qs = append(qs, `scalar(a)`, `scalar(a{l="0",m="0"})`, `time()`, `vector(time())`, `vector(1)`, `pi()`, `a * scalar(a{l="0",m="0"})`, `clamp_min(a, scalar(b))`,
+		`clamp_min(a, scalar(sum(a)))`, `clamp_max(a, scalar(a{l="0",m="1"}))`, `topk(scalar(count(a)) - 1, a)`, `topk(scalar(a{l="0",m="0"}) / 100, a)`, `bottomk by (l) (scalar(b), a)`,
+		`abs(a) + scalar(a{l="1",m="0"})`, `sum by (l) (a) * scalar(a{l="0",m="1"})`, `scalar(b) + 1`, `histogram_quantile(scalar(b) / 10, a)`, `scalar(a) + scalar(b)`,
+		`quantile(scalar(b) / 10, a)`, `a > bool scalar(a{l="0",m="0"})`, `scalar(count(a) > 2)`, `vector(scalar(a{l="0",m="1"}))`, `max(a) * time()`)
 	// every aggregation x every grouping kind, bare and under one more operator
 	for _, g := range []string{"", "by (l)", "without (m)", "without ()", "by (l, m)", "by (z)"} {
 		for _, op := range gen.SimpleAgg {
@@ -444,7 +451,8 @@ func init() {
 							x /= k
 						}
 						for _, q := range []string{`round(a)`, `sum by (l) (round(a))`, `count by (l) (sgn(a))`, `max(round(a))`, `topk by (l) (1, round(a))`, `sort(a)`, `sum(a or b)`,
-							`max by (l) (a[1m:30s] offset 30s != 0 or a)`, `sum by (l) (a) + on (l) group_left round(b)`, `round(sum by (l) (a))`, `sum by (l) (label_replace(a, "x", "$1", "l", "(.*)"))`} {
+							`max by (l) (a[1m:30s] offset 30s != 0 or a)`, `sum by (l) (a) + on (l) group_left round(b)`, `round(sum by (l) (a))`, `sum by (l) (label_replace(a, "x", "$1", "l", "(.*)"))`,
+							`absent(a)`, `absent(a{l="0",m="1"})`, `absent(nope)`, `absent_over_time(a{l="1",m="0"}[1m])`, `sum(absent(a{l="7"}))`, `round(scalar(a{l="0",m="0"}))`} {
 							for _, w := range ws {
 								c.Rep.Transitions++
 								if !c.Mine() {
@@ -685,6 +693,21 @@ func init() {
 			c.Fail(check.Failure{Prop: "C09", Kind: "enum", Sub: "C09", Symptom: sym, Detail: det, Case: cs})
 			return true
 		}
+		// expressions with offsets / @ on the selectors (first: they are few)
+		for _, q := range []string{
+			`a{l="0"} offset 30s + a`, `a{l="0"} + a offset 30s`, `a{l="0"} @ 45.000 + a`, `rate(a{l="0"}[1m] offset 30s) / rate(a[1m])`,
+			`sum by (l) (a{m="0"}) / sum by (l) (a)`, `a{l="0",m="0"} / on (l) group_left a{l="0"}`, `a{l="0"} + b{m="1"}`, `a{l="0"} - b`, `a - b{l!="1"}`,
+			`a{l=~"0|1"} + b{l=~"0|1"}`, `a{l="0"} + b{l="1"}`, `a{l="0"} * b{l="0"}`,
+			`a{l="0"} @ end() + a`, `a + a{l="0"} @ end()`, `a{l="0"} @ 100.000 * a`, `a{l="0"} @ start() + a`, `a{l="0",m="1"} @ 100.000 offset 30s / a{l="0"}`,
+			`sum(a{l="0"} @ end()) + sum(a)`, `a{l="0"} offset -30s + a`, `rate(a{l="0"}[1m] @ 100.000) + rate(a[1m])`, `a{l="0"} @ 45.000 + a @ 45.000`,
+			`a{l="0"} @ 45.000 + a{m="1"} @ 100.000 + a`,
+		} {
+			for _, w := range []core.Window{ws[0], core.Instant(45000), core.Range(0, 45000, 12)} {
+				if !emit(q, w) {
+					return
+				}
+			}
+		}
 		// single selectors in unary positions
 		for _, x := range selectorsUpTo("a", 2) {
 			for _, pos := range []string{`%s`, `abs(%s)`, `rate(%s[1m])`, `sum by (l) (%s)`, `-%s`} {
@@ -829,18 +852,6 @@ func init() {
 			}
 		}
 		c.Rep.Bounds["name_matcher_selectors"] = len(nameSel)
-		// larger expressions with offsets / @ on the selectors
-		for _, q := range []string{
-			`a{l="0"} offset 30s + a`, `a{l="0"} + a offset 30s`, `a{l="0"} @ 45.000 + a`, `rate(a{l="0"}[1m] offset 30s) / rate(a[1m])`,
-			`sum by (l) (a{m="0"}) / sum by (l) (a)`, `a{l="0",m="0"} / on (l) group_left a{l="0"}`, `a{l="0"} + b{m="1"}`, `a{l="0"} - b`, `a - b{l!="1"}`,
-			`a{l=~"0|1"} + b{l=~"0|1"}`, `a{l="0"} + b{l="1"}`, `a{l="0"} * b{l="0"}`,
-		} {
-			for _, w := range []core.Window{ws[0], core.Instant(45000), core.Range(0, 45000, 12)} {
-				if !emit(q, w) {
-					return
-				}
-			}
-		}
 	})
 }
 
@@ -1036,8 +1047,67 @@ func c08Once(q string, data []core.SeriesSpec, w core.Window) (ran, nontrivial b
 	return true, !ref.Failed() && (ref.NPoints() > 0 || ref.Type == "string"), "", ""
 }
 
+// c08Dist: the same obligations for a distributed engine whose remote engines have
+// fallback disabled: what they cannot evaluate is known when the coordinator creates the
+// query, and the coordinator falls back (or rejects) then.
+func c08Dist(q string, data []core.SeriesSpec, w core.Window) (ran, nontrivial bool, sym, det string) {
+	core.CountPaths = true
+	defer func() { core.CountPaths = false }()
+	st := storeFor(&core.Case{Data: data})
+	ref := core.RunRef(&core.Case{Q: q, Data: data, W: w, O: core.Opts{}}, st)
+	if ref.CreateErr != "" {
+		return false, false, "", ""
+	}
+	dist := []int{0, 1, 0, 1, 0, 1, 0, 1}
+	on := &core.Case{Q: q, Data: data, W: w, O: core.Opts{Optimizers: "none", Fallback: true, RemoteNoFallback: true}, NDist: 2, Dist: dist}
+	o := core.RunEngine(on, st)
+	if o.Res.CreateErr != "" {
+		return true, false, "fallback-on:rejected", "distributed engine, fallback enabled on the coordinator: creation fails: " + o.Res.CreateErr
+	}
+	if s, d := engineSymptom(o); s != "" {
+		return true, false, s, d
+	}
+	if n := o.Counter["true"] + o.Counter["false"]; n != 1 {
+		return true, false, "counter", fmt.Sprintf("distributed engine: query counter moved by %v for one created query (%v)", n, o.Counter)
+	}
+	if (o.Path == "fallback") != o.IsPromQuery {
+		return true, false, "counter:wrong-path", fmt.Sprintf("distributed engine: counter says %s but the query object is %s", o.Path, o.QueryType)
+	}
+	if s, d := core.Diff(ref, o.Res, false); s != "" && !(hasK(q) && tieEqual(ref, o.Res)) {
+		if o.IsPromQuery {
+			return true, true, "fallback-on:" + s, "distributed engine: " + d
+		}
+		return true, true, s, "distributed engine: " + d
+	}
+	off := &core.Case{Q: q, Data: data, W: w, O: core.Opts{Optimizers: "none", Fallback: false, RemoteNoFallback: true}, NDist: 2, Dist: dist}
+	f := core.RunEngine(off, st)
+	if f.Res.CreateErr != "" {
+		if !(f.ErrIs["unsupported"] || f.ErrIs["notimplemented"]) {
+			return true, false, "fallback-off:unclassified-error", "distributed engine: rejected with an error that is neither ErrNotSupportedExpr nor ErrNotImplemented: " + f.Res.CreateErr
+		}
+		if !o.IsPromQuery {
+			return true, false, "fallback-off:inconsistent", "distributed engine: rejected as unsupported with fallback disabled, but evaluated natively with fallback enabled"
+		}
+	} else {
+		if o.IsPromQuery {
+			return true, false, "fallback-on:unneeded", "distributed engine: created natively with fallback disabled, but fell back with fallback enabled"
+		}
+		if s, d := engineSymptom(f); s != "" {
+			return true, false, s, d
+		}
+		if s, d := core.Diff(o.Res, f.Res, false); s != "" && !(hasK(q) && tieEqual(o.Res, f.Res)) {
+			return true, true, "fallback-off:" + s, "distributed engine: result differs from the one with fallback enabled: " + d
+		}
+	}
+	return true, !ref.Failed() && ref.NPoints() > 0, "", ""
+}
+
 func init() {
 	check.Replayers["enum:C08"] = func(f *check.Failure) (string, string) {
+		if f.Case.NDist > 0 {
+			_, _, s, d := c08Dist(f.Case.Q, f.Case.Data, f.Case.W)
+			return s, d
+		}
 		_, _, s, d := c08Once(f.Case.Q, f.Case.Data, f.Case.W)
 		return s, d
 	}
@@ -1094,6 +1164,42 @@ func init() {
 				c.Rep.Outcomes["diff:"+sym]++
 				c.Fail(check.Failure{Prop: "C08", Kind: "enum", Sub: "C08", Symptom: sym, Detail: det, Case: cs})
 			}
+		}
+		// the same vocabulary and positions through a distributed engine over two remote
+		// engines that have fallback disabled
+		for _, q := range qs.List {
+			w := ws[1]
+			c.Rep.Transitions++
+			if !c.Mine() {
+				continue
+			}
+			if c.Expired() {
+				return
+			}
+			cs := &core.Case{Q: q, Data: data, W: w, O: core.Opts{Optimizers: "none", Fallback: true, RemoteNoFallback: true}, NDist: 2, Dist: []int{0, 1, 0, 1, 0, 1, 0, 1}, Note: "D1 distributed"}
+			if !c.Progress(cs) {
+				continue
+			}
+			ran, nt, sym, det := c08Dist(q, data, w)
+			if !ran {
+				continue
+			}
+			c.Rep.States++
+			c.Rep.Evaluations += 2
+			c.Rep.Traces += 2
+			if nt {
+				c.Rep.Nontrivial++
+			}
+			if sym == "" {
+				c.Rep.Outcomes["ok"]++
+				continue
+			}
+			if _, _, s2, _ := c08Dist(q, data, w); s2 == "" {
+				c.Rep.Extra["unreproduced_failures"]++
+				continue
+			}
+			c.Rep.Outcomes["diff:"+sym]++
+			c.Fail(check.Failure{Prop: "C08", Kind: "enum", Sub: "C08", Symptom: sym, Detail: det, Case: cs})
 		}
 	})
 }
